@@ -16,6 +16,7 @@
 #include <unistd.h>
 
 static int inited = 0;
+static long long mono_default = 0;
 static int rnd_active = 0, time_active = 0;
 static unsigned long long rnd_state = 0;
 static long long fake_secs = 0;
@@ -36,6 +37,9 @@ static void init(void) {
         time_active = 1;
         fake_secs = strtoll(t, 0, 10);
     }
+    const char *ma = getenv("VERIF_MONO_ALL_THREADS");
+    const char *ms = getenv("VERIF_MONO_STEP_NS");
+    if (ma && *ma && ms && *ms) mono_default = strtoll(ms, 0, 10);
     real_syscall = (long (*)(long, ...))dlsym(RTLD_NEXT, "syscall");
     real_clock_gettime = (int (*)(clockid_t, struct timespec *))dlsym(RTLD_NEXT, "clock_gettime");
     inited = 1;
@@ -99,13 +103,35 @@ static void fake_now(struct timespec *ts) {
     ts->tv_nsec = (n % 1000) * 1000000L;
 }
 
+/* Monotonic clock of a slow or stalled machine: every read of a monotonic clock by a thread that
+ * opted in (verifshim_mono_step, called by the simulator on the threads that run the system under
+ * test) - or by every thread when VERIF_MONO_ALL_THREADS is set (the real tools, which have no
+ * simulator threads) - is `step` nanoseconds later than the previous one. Off by default. */
+static __thread long long mono_step = -1; /* -1 = take the process default */
+static __thread long long mono_off = 0;
+
+void verifshim_mono_step(long long ns) {
+    mono_step = ns;
+    mono_off = 0;
+}
+
 int clock_gettime(clockid_t clk, struct timespec *ts) {
     init();
     if (time_active && (clk == CLOCK_REALTIME || clk == CLOCK_REALTIME_COARSE)) {
         fake_now(ts);
         return 0;
     }
-    return real_clock_gettime(clk, ts);
+    int r = real_clock_gettime(clk, ts);
+    if (r == 0 && (clk == CLOCK_MONOTONIC || clk == CLOCK_MONOTONIC_RAW || clk == CLOCK_MONOTONIC_COARSE || clk == CLOCK_BOOTTIME)) {
+        long long step = mono_step >= 0 ? mono_step : mono_default;
+        if (step > 0) {
+            mono_off += step;
+            long long ns = (long long)ts->tv_nsec + mono_off % 1000000000LL;
+            ts->tv_sec += mono_off / 1000000000LL + ns / 1000000000LL;
+            ts->tv_nsec = ns % 1000000000LL;
+        }
+    }
+    return r;
 }
 
 time_t time(time_t *out) {
